@@ -23,13 +23,13 @@ META["text"] = (
     "index arithmetic: for a configuration that passed the actnum validation of Pid::Create every act_dot index written and every act/act_dot index read with dyntype none/integrator/filter/filterexact lies in [actadr, actadr+actnum), "
     "the native activation slot is never written, the act_dot array is unchanged outside the slices of the instance's actuators and actuator_force is unchanged outside the instance's own entries (C51_writes_in_slice, C51_reads_in_slice, C51_actdot_frame, C51_force_frame). "
     "Cable (Model/Cable.v of plugin/elasticity/cable.cc): curvature equal to the reference gives zero LocalStress for every stiffness and both pull-back arms (C51_cable_stress_rest), and when every body with a predecessor is at its reference curvature "
-    "Cable::Compute leaves qfrc_passive unchanged (C51_cable_rest_partial: the accumulation mj_applyFT is modelled as qfrc += jacr^T torque; division by a zero segment length is a real-number convention). "
+    "Cable::Compute leaves qfrc_passive unchanged (C51_cable_rest_partial: the accumulation mj_applyFT is modelled as qfrc += jacr^T torque; division by a zero segment length is a real-number convention); the constructor's reference curvature omega0 = subQuat(body_quat, qpos0 quaternion of the body's BALL joint) equals the curvature Compute measures at qpos0, so a non-flat cable exerts no force at qpos0 whatever other (slide / hinge) joints its segments carry (C51_cable_omega0_rest, C51_cable_rest_at_qpos0). "
     "Refuted for the faithful model and replayed on the implementation (a finding when it fires): with dyntype filterexact, or with actlimited, the engine integrates/clamps the plugin-owned integral and previous-ctrl slots as if they were the native activation, "
     "so the stored integral is not the requested one and the force deviates from the documented law on the following steps (C51_actlimited_state_refuted, C51_filterexact_state_refuted; recorded as KNOWN_FINDINGS C51-F1; two fixed corpus trajectories reproduce it on every run). Observation (reads, not writes): for dyntypes other than none/integrator/filter/filterexact with an empty slice GetCtrl reads act[actadr-1] (C51_reads_outside_example). "
     "Not proved: nothing about Cable's constructor (stiffness from geometry, omega0) beyond the tie; Visualize. "
     "The models are tied on every run to the plugins compiled from the working tree: per plugin instance the actuator_act_dot and compute callbacks are called on canary-filled arrays and compared entry by entry with the model (whole arrays, so writes outside the slice show up), "
     "mj_step trajectories are compared step by step (act_dot, force, next act), LocalStress is called directly and Cable::Compute is compared through mj_forward with the model's qfrc_passive. "
-    "Oracle on implementation output: the documented PID law recomputed from the observable arrays with an integral and previous setpoint tracked by the oracle itself, |I term| <= imax, slew bound, canaries, zero passive force in the stress-free configuration, untouched foreign dofs.")
+    "Oracle on implementation output: the documented PID law recomputed from the observable arrays with an integral and previous setpoint tracked by the oracle itself, |I term| <= imax, slew bound, canaries, zero passive force in the stress-free configuration (qpos0, qpos0 with flipped quaternion signs, and stretched slide joints with every ball joint at its reference), untouched foreign dofs.")
 META["note"] = ("Trusted: Coq kernel + the standard-library real-number axioms listed in trusted_base; hand-written models; Lib/FloatFn.v (executable side); "
                 "correspondence harness (g++, driver c51_plugins.cc which #includes plugin/actuator/pid.cc and plugin/elasticity/cable.cc of the working tree).")
 
@@ -270,12 +270,22 @@ Definition Q (l : list float) : quat float := (nth 0 l 0, nth 1 l 0, nth 2 l 0, 
 Definition V (l : list float) : vec3 float := (nth 0 l 0, nth 1 l 0, nth 2 l 0)%float.
 Fixpoint cols (n : nat) (a b c : list float) : list (vec3 float) :=
   match n, a, b, c with S k, x :: a', y :: b', z :: c' => (x, y, z) :: cols k a' b' c' | _, _, _, _ => nil end.
-Definition mkB (nv : nat) (t : list float * list float * list float * list float * list float * list float) : CBody :=
-  match t with (bq, jq, k, w0, xq, jac) =>
+Definition BT := (list float * list float * list float * list float * list float * list float * list float)%type.
+Definition mkB (nv : nat) (t : BT) : CBody :=
+  match t with (bq, jq, k, w0, xq, jac, q0) =>
     mkCBody (Q bq) (Q jq) (nth 0 k 0, nth 1 k 0, nth 2 k 0, nth 3 k 0)%float (V w0) (Q xq)
             (cols nv (firstn nv jac) (firstn nv (skipn nv jac)) (skipn (2 * nv) jac)) end.
-Definition chk (c : nat * list (list float * list float * list float * list float * list float * list float) * list float) : bool :=
-  match c with (nv, bs, out) => fclose_list TOL (cable_compute (map (mkB nv) bs) (repeat 0%float nv)) out end.
+(* reference curvature stored by the constructor = model of the constructor on body_quat and the qpos0 quaternion
+   of the body's ball joint (located by joint type in the driver) *)
+Fixpoint omega0_ok (flat has_prev : bool) (bs : list BT) : bool :=
+  match bs with
+  | nil => true
+  | (bq, _, _, w0, _, _, q0) :: r =>
+      fclose_list TOL (v2l (cable_omega0 flat has_prev (Q bq) (Q q0))) w0 && omega0_ok flat true r
+  end.
+Definition chk (c : nat * bool * list BT * list float) : bool :=
+  match c with (nv, flat, bs, out) =>
+    fclose_list TOL (cable_compute (map (mkB nv) bs) (repeat 0%float nv)) out && omega0_ok flat false bs end.
 """.replace("TOL", TOL)
 
 LS_PRE = """
@@ -301,12 +311,19 @@ def rnd_cable(rng):
     flat = rng.choice(["false", "false", "true"])
     curved = rng.random() < 0.7
     geomtype = rng.choice([0, 0, 1, 2])
+    multi = rng.random() < 0.6
     bodies = []
     for b in range(n):
         pos = [0.0, 0.0, 1.0] if b == 0 else [rng.uniform(0.05, 0.3), 0.0, 0.0]
         quat = rquat(rng, 0.3) if (curved and b > 0) else [1.0, 0.0, 0.0, 0.0]
         size = [rng.uniform(0.005, 0.03), rng.uniform(0.02, 0.1), rng.uniform(0.005, 0.03)]
-        bodies.append((pos, quat, size))
+        # scalar joints in front of the ball joint (extensible / hinged segments): body_dofnum > 3, so the qpos address of
+        # the body's first joint differs from the address of its ball joint; non-zero ref makes qpos0 non-trivial there
+        pre = []
+        if multi and rng.random() < 0.6:
+            for _ in range(rng.randint(1, 2)):
+                pre.append((rng.choice([2, 2, 3]), rng.choice([0.0, rng.uniform(-0.3, 0.3)])))
+        bodies.append((pos, quat, size, pre))
     # stiffness J*G: radius^4 ~ 1e-8..1e-6: choose moduli so that stiffness is O(0.01 .. 10)
     twist = rng.choice([0.0, rng.uniform(1e5, 1e8)]) if rng.random() < 0.15 else rng.uniform(1e5, 1e8)
     bend = rng.uniform(1e5, 1e8)
@@ -316,9 +333,35 @@ def rnd_cable(rng):
 
 def cable_text(C):
     out = ["CABLEMODEL %d %s %s %s %d %d %d" % (C["n"], C["flat"], repr(C["twist"]), repr(C["bend"]), C["firstjoint"], C["geomtype"], C["otherfirst"])]
-    for pos, quat, size in C["bodies"]:
-        out.append(" ".join(hx(x) for x in pos + quat + size))
+    for pos, quat, size, pre in C["bodies"]:
+        out.append(" ".join(hx(x) for x in pos + quat + size) + " %d" % len(pre) + "".join(" %d %s" % (t, hx(r)) for t, r in pre))
     return out
+
+
+def cable_rot(C, b):
+    """rotational joint of body b: 0 none, 1 ball, 2 free"""
+    if b > 0:
+        return 1
+    fj = C["firstjoint"]
+    return 0 if (fj == 2 and C["bodies"][0][3]) else fj
+
+
+def cable_qpos(C, other, scal, quat, freepos):
+    """qpos in model order; scal(b, k) value of the k-th scalar joint of body b, quat(b) of its rotational joint"""
+    q = []
+    if C["otherfirst"]:
+        q.append(other)
+    for b in range(C["n"]):
+        for k in range(len(C["bodies"][b][3])):
+            q.append(scal(b, k))
+        r = cable_rot(C, b)
+        if r == 2:
+            q += freepos
+        if r:
+            q += quat(b)
+    if not C["otherfirst"]:
+        q.append(other)
+    return q
 
 
 # ------------------------------------------------------------------------------------- the check
@@ -380,39 +423,24 @@ def run(ctx):
     for ci in range(ncab):
         C = rnd_cable(rng)
         script += cable_text(C)
-        # nq is known only after compilation: states are random unit quaternions per joint, generated for the expected layout
-        nq = (0 if C["firstjoint"] == 0 else 4 if C["firstjoint"] == 1 else 7) + 4 * (C["n"] - 1) + 1
+        ident = [1.0, 0.0, 0.0, 0.0]
+        ref = lambda b, k: C["bodies"][b][3][k][1]
         cmds = ["REST"]
         script.append("REST")
         for rep in range(4 if big else 2):
-            q = []
-            if C["otherfirst"]:
-                q.append(rng.uniform(-1, 1))
-            if C["firstjoint"] == 2:
-                q += [rng.uniform(-0.2, 0.2) for _ in range(3)]
-            if C["firstjoint"]:
-                q += rquat(rng, rng.choice([0.1, 1.0, 100]))
-            for b in range(1, C["n"]):
-                q += rquat(rng, rng.choice([0.05, 0.5, 100]))
-            if not C["otherfirst"]:
-                q.append(rng.uniform(-1, 1))
-            assert len(q) == nq
+            q = cable_qpos(C, rng.uniform(-1, 1), lambda b, k: ref(b, k) + rng.uniform(-0.2, 0.2),
+                           lambda b: rquat(rng, rng.choice([0.05, 0.5, 100])), [rng.uniform(-0.2, 0.2) for _ in range(3)])
             script.append("STATE " + " ".join(hx(x) for x in q))
             cmds.append("STATE")
         # the same rotations written with the opposite quaternion sign: still the stress-free configuration
-        q = []
-        if C["otherfirst"]:
-            q.append(0.3)
-        if C["firstjoint"] == 2:
-            q += [0.0, 0.0, 1.0]
-        if C["firstjoint"]:
-            q += [1.0, 0.0, 0.0, 0.0]
-        for b in range(1, C["n"]):
-            q += [-1.0, 0.0, 0.0, 0.0]
-        if not C["otherfirst"]:
-            q.append(0.3)
+        q = cable_qpos(C, 0.3, ref, lambda b: ident if b == 0 else [-1.0, 0.0, 0.0, 0.0], [0.0, 0.0, 1.0])
         script.append("STATE " + " ".join(hx(x) for x in q))
         cmds.append("NEGREST")
+        # stretched, unbent: only the slide joints move, every ball joint stays at its reference
+        if any(t == 2 for bd in C["bodies"] for t, _ in bd[3]):
+            q = cable_qpos(C, -0.4, lambda b, k: ref(b, k) + (rng.uniform(-0.2, 0.2) if C["bodies"][b][3][k][0] == 2 else 0.0), lambda b: ident, [0.1, -0.1, 1.0])
+            script.append("STATE " + " ".join(hx(x) for x in q))
+            cmds.append("STRETCH")
         script.append("END")
         plan.append(("CABLE", C, cmds))
     nls = 400 if big else 80
@@ -512,15 +540,17 @@ def run(ctx):
                     bodies = []
                     for b in range(n):
                         tb = Toks(nextline()); tb.expect("B"); tb.word()
-                        tb.expect("bq"); bq = tb.floats(4); tb.expect("jq"); jq = tb.floats(4); tb.expect("k"); kk = tb.floats(4); tb.expect("w0"); w0 = tb.floats(3)
+                        tb.expect("bq"); bq = tb.floats(4); tb.expect("jq"); jq = tb.floats(4); tb.expect("q0"); q0 = tb.floats(4); tb.expect("k"); kk = tb.floats(4); tb.expect("w0"); w0 = tb.floats(3)
                         tb.expect("xq"); xq = tb.floats(4); tb.expect("stress"); st = tb.floats(3); tb.expect("jacr"); jac = tb.floats(3 * nv)
-                        bodies.append((bq, jq, kk, w0, xq, jac))
+                        bodies.append((bq, jq, kk, w0, xq, jac, q0))
                     stats["cable_states"] += 1
                     sig_case = {"cable": cable_text(C), "state": cmd}
-                    if cmd in ("REST", "NEGREST") and (C["flat"] == "false" or not C["curved"]):
+                    if any(bd[3] for bd in C["bodies"]):
+                        stats["cable_states_multijoint"] = stats.get("cable_states_multijoint", 0) + 1
+                    if cmd in ("REST", "NEGREST", "STRETCH") and (C["flat"] == "false" or not C["curved"]):
                         lim = 1e-9 * (1 + 100 * kmax)
                         if not all(abs(x) <= lim for x in qfrc):
-                            ctx.violation("impl_violation", sig_case, expected="qfrc_passive = 0 in the stress-free configuration (all joints at qpos0%s)" % (", quaternion sign flipped" if cmd == "NEGREST" else ""),
+                            ctx.violation("impl_violation", sig_case, expected="qfrc_passive = 0 in the stress-free configuration (%s)" % {"REST": "all joints at qpos0", "NEGREST": "all joints at qpos0, quaternion sign flipped", "STRETCH": "ball joints at qpos0, slide joints moved"}[cmd],
                                           observed=qfrc, theorem="C51_cable_rest_partial", signature={"site": "mujoco.elasticity.cable", "class": "rest-force"})
                     if qfrc[other_dof] != 0.0:
                         ctx.violation("impl_violation", sig_case, expected="the dof of a body outside the cable receives no passive force", observed=qfrc[other_dof],
@@ -528,7 +558,7 @@ def run(ctx):
                     if any(x != x for x in qfrc):
                         ctx.violation("impl_violation", sig_case, expected="finite qfrc_passive", observed=qfrc, theorem="C51_cable_rest_partial",
                                       signature={"site": "mujoco.elasticity.cable", "class": "nan"})
-                    cable_cases.append("(%d%%nat, [%s], %s)" % (nv, "; ".join("(%s)" % ", ".join(F.flist(x) for x in bd) for bd in bodies), F.flist(qfrc)))
+                    cable_cases.append("(%d%%nat, %s, [%s], %s)" % (nv, "true" if C["flat"] == "true" else "false", "; ".join("(%s)" % ", ".join(F.flist(x) for x in bd) for bd in bodies), F.flist(qfrc)))
                     cable_meta.append(sig_case)
         ls_lits = []
         for (k, q, w0, pb) in ls_cases:
